@@ -1,0 +1,55 @@
+//go:build verif
+
+package dv
+
+import "github.com/named-data/ndnd/dv/table"
+
+// Contracts for dv/dv/table_algo.go (gcv). ribUpdate and checkDeadNeighbors end with
+// `go func() { dv.fibUpdate(); ... }()`: the engine drops the spawn from the VC (no interference modelled), so
+// these contracts specify the sequential part, under the router mutex.
+
+type ghostCostMap = map[uint64]uint64
+type ghostFibSlice = []table.FibEntry
+
+// ribUpdate (C18): reset-then-set. Afterwards the RIB invariant holds, no entry is dirty, no entry is unreachable
+// (pruned: what Advert() needs), and every remaining entry carries a cost for this neighbour that is a hop
+// count: at least 1 (cost = adv+1) and at most infinity (reset value).
+//
+//@ func (*Router).ribUpdate
+//@   requires dv.rib != nil && dv.config != nil && ns != nil && table.ribInv(dv.rib)
+//@   requires forall(func(a uint64, b uint64) bool { return dv.rib.hasEntry(a) && dv.rib.hasEntry(b) && a != b ==> dv.rib.entries[a].costs != dv.rib.entries[b].costs })
+//@   requires ns.Advert != nil ==> forallIn(0, len(ns.Advert.Entries), func(i int) bool { return ns.Advert.Entries[i] != nil && ns.Advert.Entries[i].NextHop != nil && ns.Advert.Entries[i].Destination != nil })
+//@   modifies dv.rib.entries[*], dv.rib.neighbors[*], all(ghostCostMap), all(table.RibEntry.dirty), all(table.RibEntry.lowest1), all(table.RibEntry.lowest2), all(table.RibEntry.nextHop1), all(table.RibEntry.nextHop2)
+//@   ensures table.ribInv(dv.rib)
+//@   ensures forall(func(a uint64, b uint64) bool { return dv.rib.hasEntry(a) && dv.rib.hasEntry(b) && a != b ==> dv.rib.entries[a].costs != dv.rib.entries[b].costs })
+//@   ensures ns.Advert != nil ==> table.ribClean(dv.rib) && table.ribPruned(dv.rib)
+//@   ensures ns.Advert != nil ==> forall(func(h uint64) bool { return dv.rib.hasEntry(h) ==> dv.rib.entries[h].hasHop(enc.SpecNameHash(ns.Name)) && 1 <= dv.rib.entries[h].costs[enc.SpecNameHash(ns.Name)] && dv.rib.entries[h].costs[enc.SpecNameHash(ns.Name)] <= 16 })
+//@   loop 1 invariant ns.Advert != nil && forallIn(0, len(ns.Advert.Entries), func(i int) bool { return ns.Advert.Entries[i] != nil && ns.Advert.Entries[i].NextHop != nil && ns.Advert.Entries[i].Destination != nil })
+//@   loop 1 invariant table.ribInv(dv.rib)
+//@   loop 1 invariant forall(func(a uint64, b uint64) bool { return dv.rib.hasEntry(a) && dv.rib.hasEntry(b) && a != b ==> dv.rib.entries[a].costs != dv.rib.entries[b].costs })
+//@   loop 1 invariant forall(func(h uint64) bool { return dv.rib.hasEntry(h) ==> dv.rib.entries[h].hasHop(enc.SpecNameHash(ns.Name)) && 1 <= dv.rib.entries[h].costs[enc.SpecNameHash(ns.Name)] && dv.rib.entries[h].costs[enc.SpecNameHash(ns.Name)] <= 16 })
+
+// checkDeadNeighbors (C18): a dead neighbour is removed from the neighbour table, its costs are removed from
+// every RIB entry and the RIB is pruned; the RIB invariant is re-established.
+//
+//@ func (*Router).checkDeadNeighbors
+//@   requires dv.rib != nil && dv.neighbors != nil && table.ribInv(dv.rib) && table.ntInv(dv.neighbors)
+//@   requires forall(func(a uint64, b uint64) bool { return dv.rib.hasEntry(a) && dv.rib.hasEntry(b) && a != b ==> dv.rib.entries[a].costs != dv.rib.entries[b].costs })
+//@   modifies dv.rib.entries[*], dv.rib.neighbors[*], all(ghostCostMap), all(table.RibEntry.dirty), all(table.RibEntry.lowest1), all(table.RibEntry.lowest2), all(table.RibEntry.nextHop1), all(table.RibEntry.nextHop2), dv.neighbors.neighbors[*], all(table.NeighborState.Advert), all(table.NeighborState.faceId), all(table.NeighborState.isFaceActive)
+//@   ensures table.ribInv(dv.rib) && table.ntInv(dv.neighbors)
+//@   ensures forall(func(a uint64, b uint64) bool { return dv.rib.hasEntry(a) && dv.rib.hasEntry(b) && a != b ==> dv.rib.entries[a].costs != dv.rib.entries[b].costs })
+//@   ensures old(table.ribClean(dv.rib)) ==> table.ribClean(dv.rib)
+//@   loop 1 invariant table.ribInv(dv.rib) && table.ntInv(dv.neighbors)
+//@   loop 1 invariant forall(func(a uint64, b uint64) bool { return dv.rib.hasEntry(a) && dv.rib.hasEntry(b) && a != b ==> dv.rib.entries[a].costs != dv.rib.entries[b].costs })
+//@   loop 1 invariant old(table.ribClean(dv.rib)) ==> table.ribClean(dv.rib)
+
+// fibUpdate (C19): per prefix, the union over reachable remote routers announcing it (and each router's own
+// .../DV prefix) of GetFibEntries is handed to UpdateH; everything else is removed by RemoveUnmarked, so
+// afterwards every installed prefix is marked (was prescribed in this round).
+//
+//@ func (*Router).fibUpdate
+//@   requires dv.rib != nil && dv.fib != nil && dv.neighbors != nil && dv.pfx != nil && dv.config != nil
+//@   requires table.ribInv(dv.rib) && table.fibInv(dv.fib) && table.ptInv(dv.pfx)
+//@   modifies dv.fib.names[*], dv.fib.prefixes[*], dv.fib.mark[*], all(ghostFibSlice), dv.pfx.routers[*]
+//@   ensures table.fibInv(dv.fib)
+//@   ensures forall(func(h uint64) bool { return dv.fib.hasPrefix(h) ==> dv.fib.mark[h] })
